@@ -5,11 +5,11 @@ package main
 // IEEE-754 Float64 in the bit-precise tier or as rounded reals in tier R).
 
 import (
-	"sync"
 	"fmt"
 	"math"
 	"math/bits"
 	"strings"
+	"sync"
 )
 
 type SortKind int
